@@ -73,15 +73,17 @@ func shortKey(key string) string {
 	return key
 }
 
-// log must be called with mu held.
-func (s *store) log(node, dop, key string, res int) {
+// log must be called with mu held. prev = node named by the record before the operation.
+func (s *store) log(node, dop, key string, res int) { s.logp(node, dop, key, res, "") }
+
+func (s *store) logp(node, dop, key string, res int, prev string) {
 	g := sched.Gid()
 	op, _ := s.point.Load(g)
 	th, _ := s.thread.Load(g)
 	ops, _ := op.(string)
 	ths, _ := th.(string)
 	s.w.Emit(map[string]any{"ev": "op", "t": ths, "n": node, "op": strings.TrimPrefix(ops, "cluster."), "dop": dop,
-		"key": shortKey(key), "res": res, "own": s.owner(key, s.m[key])})
+		"key": shortKey(key), "res": res, "own": s.owner(key, s.m[key]), "prev": prev})
 }
 
 type fakeDMap struct {
@@ -179,6 +181,10 @@ func (d *fakeDMap) Get(_ context.Context, key string) (*olric.GetResponse, error
 		d.st.log(d.node, "get", key, -1)
 		return nil, errInjected
 	}
+	if d.injected("getq") { // a read-quorum miss
+		d.st.log(d.node, "get", key, -1)
+		return nil, olric.ErrReadQuorum
+	}
 	val, found := d.st.m[key]
 	if !found {
 		d.st.log(d.node, "get", key, 0)
@@ -197,11 +203,12 @@ func (d *fakeDMap) Delete(_ context.Context, keys ...string) (int, error) {
 			d.st.log(d.node, "del", key, -1)
 			return n, errInjected
 		}
+		prev := d.st.owner(key, d.st.m[key])
 		if _, found := d.st.m[key]; found {
 			n++
 		}
 		delete(d.st.m, key)
-		d.st.log(d.node, "del", key, 1)
+		d.st.logp(d.node, "del", key, 1, prev)
 	}
 	return n, nil
 }
@@ -212,18 +219,44 @@ type fakeClient struct {
 	olric.Client
 	mu      sync.Mutex
 	nodes   []*discovery.Node // all members, in birth order
-	leader  string            // name of the node this view marks as coordinator
+	leader  string            // name of the node this view marks as coordinator ("-" = nobody is flagged)
+	solo    bool              // the view is exactly [self]
+	failN   int               // number of Members calls to fail with a read-quorum error
+	log     bool              // log every Members answer (C36)
 	w       *vtrace.Writer
 	self    string
 }
 
-func (c *fakeClient) setLeader(l string) { c.mu.Lock(); c.leader = l; c.mu.Unlock() }
+func (c *fakeClient) setLeader(l string) { c.mu.Lock(); c.leader = l; c.solo = false; c.mu.Unlock() }
+func (c *fakeClient) setView(l string, solo bool) {
+	c.mu.Lock()
+	c.leader, c.solo = l, solo
+	c.mu.Unlock()
+}
+func (c *fakeClient) failNext() { c.mu.Lock(); c.failN++; c.mu.Unlock() }
 
 func (c *fakeClient) Members(context.Context) ([]olric.Member, error) {
 	c.mu.Lock()
 	defer c.mu.Unlock()
+	if c.failN > 0 {
+		c.failN--
+		if c.log {
+			c.w.Emit(map[string]any{"ev": "op", "t": "", "n": c.self, "op": "Members", "dop": "members", "key": "", "res": -1, "own": "-", "prev": ""})
+		}
+		return nil, olric.ErrReadQuorum
+	}
 	out := make([]olric.Member, 0, len(c.nodes))
+	if c.log {
+		cnt := len(c.nodes)
+		if c.solo {
+			cnt = 1
+		}
+		c.w.Emit(map[string]any{"ev": "op", "t": "", "n": c.self, "op": "Members", "dop": "members", "key": "", "res": cnt, "own": c.leader, "prev": ""})
+	}
 	for i, n := range c.nodes {
+		if c.solo && n.Name != c.self {
+			continue
+		}
 		meta, _ := json.Marshal(n)
 		out = append(out, olric.Member{Name: n.PeersAddress(), ID: uint64(i + 1), Birthdate: int64(i + 1),
 			Coordinator: n.Name == c.leader, Meta: string(meta)})
